@@ -3,7 +3,7 @@
 # private evidence/replay output (never touches /verif/evidence). Prints only verdict lines.
 tier="$1"; shift
 seeds=(); while [ "$1" != "--" ]; do seeds+=("$1"); shift; done; shift
-out=/verif/work/sweep-$$; mkdir -p $out; cp /verif/target/release/xsmon $out/xsmon
+out=/verif/work/sweep-$$; mkdir -p $out; cp /verif/target/release/xsmon /verif/target/release/xs-real $out/
 for c in "$@"; do for s in "${seeds[@]}"; do
   XSMON_OUT=$out VERIF_SEED=$s $out/xsmon check $c $tier 2>&1 | grep -E "signature|exit|INCONCLUSIVE" | sed "s|^|[$c s=$s] |"
 done; done
